@@ -30,6 +30,7 @@ import (
 
 	"github.com/henrylee2cn/erpc/v6"
 	"github.com/henrylee2cn/erpc/v6/codec"
+	"github.com/henrylee2cn/erpc/v6/socket"
 	"github.com/henrylee2cn/erpc/v6/utils"
 	"github.com/henrylee2cn/erpc/v6/xfer"
 	"github.com/henrylee2cn/erpc/v6/xfer/gzip"
@@ -345,6 +346,9 @@ func (h *httproto) unpack(m erpc.Message, bb *utils.ByteBuffer) (size int, msg [
 			msg = append(msg, '\r', '\n')
 		}
 		size += bb.Len()
+		if uint64(size) > uint64(erpc.GetReadLimit()) {
+			return 0, nil, socket.ErrExceedMessageSizeLimit
+		}
 		// blank line, to read body
 		if bb.Len() == 0 {
 			break
@@ -361,8 +365,12 @@ func (h *httproto) unpack(m erpc.Message, bb *utils.ByteBuffer) (size int, msg [
 		}
 		if bytes.Equal(contentLengthBytes, a[0]) {
 			bodySize, err = strconv.Atoi(goutil.BytesToString(a[1]))
-			if err != nil {
+			if err != nil || bodySize < 0 {
 				return 0, nil, errBadHTTPMsg
+			}
+			// refuse an over-limit body before reading (and buffering) it
+			if uint64(size)+uint64(bodySize) > uint64(erpc.GetReadLimit()) {
+				return 0, nil, socket.ErrExceedMessageSizeLimit
 			}
 			size += bodySize
 			continue
@@ -426,6 +434,10 @@ func (h *httproto) readLine(bb *utils.ByteBuffer) error {
 				bb.B = bb.B[:n-1]
 			}
 			return nil
+		}
+		if uint64(bb.Len()) >= uint64(erpc.GetReadLimit()) {
+			// a line that never ends must not be buffered without bound
+			return socket.ErrExceedMessageSizeLimit
 		}
 		bb.Write(oneByte)
 	}
